@@ -69,10 +69,36 @@ Definition fill_body (N : Z) (V : Z) (st : storage) : outcome storage :=
         set_cell st4 V i j (src (fill_src_args n1 n2 n3))
       else OOB) st3) st2)).
 
-Definition fill (N : Z) : outcome storage :=
-  if fill_is_empty N then Done (empty_storage 0 0)
+(** Values.resize(nv); FermionicIndexOffset.resize(no) on an EXISTING storage, with
+    std::vector::resize semantics: the sizes become nv / no; entries with index below
+    min(old size, new size) keep their contents (for Values: the matrix with its dims and
+    cells); every other entry is a default one: a 0x0 matrix without cells for Values, and 0
+    for FermionicIndexOffset (new elements of a std::vector<long> are value-initialised,
+    i.e. 0).  Entries at or beyond the new size do not exist any more: every access in this
+    model is bounds-checked against nvals / noffs, and a later growing resize sees defaults
+    there, not the old contents. *)
+Definition resize_storage (st : storage) (nv no : Z) : storage :=
+  {| nvals := nv; noffs := no;
+     dims  := fun v => if inb v (Z.min (nvals st) nv) then dims st v else (0, 0);
+     offs  := fun v => if inb v (Z.min (noffs st) no) then offs st v else 0;
+     cells := fun v => if inb v (Z.min (nvals st) nv) then cells st v else (fun _ _ => None) |}.
+
+(** MatsubaraContainer4::fill on a container whose vectors currently are [st]
+    (Vertex4::compute may be called repeatedly on the same object, with any sequence of
+    window sizes).  Nothing is discarded except by the two vector resizes and by the
+    per-block matrix resize inside [fill_body] ([set_dims], which -- like Eigen's
+    non-conservative resize -- leaves the block without initialised cells). *)
+Definition fill_from (st : storage) (N : Z) : outcome storage :=
+  if fill_is_empty N then Done (resize_storage st 0 0)
   else loop_up (fuelN N) (fill_V_first N) (fill_V_cond N) (fill_body N)
-               (empty_storage (fill_nvalues N) (fill_noffsets N)).
+               (resize_storage st (fill_nvalues N) (fill_noffsets N)).
+
+(** fill on a freshly constructed container (both vectors empty) *)
+Definition fill (N : Z) : outcome storage := fill_from (empty_storage 0 0) N.
+
+(** a history of fills on one container, starting from a freshly constructed one *)
+Definition refill (Ns : list Z) : outcome storage :=
+  fold_left (fun acc N => bind acc (fun st => fill_from st N)) Ns (Done (empty_storage 0 0)).
 
 Definition lookup (st : storage) (N n1 n2 n3 : Z) : outcome T :=
   let V := lookup_V N n1 n2 n3 in
@@ -100,6 +126,12 @@ End M4.
     identity on triples, so the result shows which triple a cell was filled from. *)
 Definition probe (N n1 n2 n3 : Z) : outcome (Z * Z * Z) :=
   fill_then_lookup (Z * Z * Z) (fun t => t) N n1 n2 n3.
+
+(** compute(N1); ...; compute(Nk) on one object, then operator()(n1,n2,n3)
+    (which uses the window size of the last fill; 0 for a fresh container) *)
+Definition probe_seq (Ns : list Z) (n1 n2 n3 : Z) : outcome (Z * Z * Z) :=
+  bind (refill (Z * Z * Z) (fun t => t) Ns)
+       (fun st => lookup (Z * Z * Z) (fun t => t) st (last Ns 0) n1 n2 n3).
 
 (** number of cells written by [fill] (for the evidence: size of the window) *)
 Definition window_cells (N : Z) : Z :=
